@@ -206,4 +206,10 @@ def cached_node_property(name):''')]),
     dict(name="seed C02_10: chunks rescaled with the sign of the exponent difference inverted", kind="break", file=CORE,
          old="                k: mi * 10 ** (ei - emax) for k, (mi, ei) in chunks.items()", new="                k: mi * 10 ** (emax - ei) for k, (mi, ei) in chunks.items()",
          expect=("C02-SLICESUM", "gather_slices")),
+    dict(name="sorting the index orders keeps the compiled contractors", kind="break", file=CORE,
+         old="                    self.info[r][\"inds\"] = r_inds\n\n        # invalidate any compiled contractions\n        self.contraction_cores.clear()",
+         new="                    self.info[r][\"inds\"] = r_inds\n", expect=("C02-CORES", "sort_contraction_indices")),
+    dict(name="resetting the index orders keeps the compiled contractors", kind="break", file=CORE,
+         old="                self.info[node].pop(k, None)\n\n        # invalidate any compiled contractions\n        self.contraction_cores.clear()",
+         new="                self.info[node].pop(k, None)\n", expect=("C02-CORES", "reset_contraction_indices")),
 ]
